@@ -159,8 +159,12 @@ def gen_case(seed):
             sc["script"].append({"t": round(delay * r2.choice([1.2, 1.5, 1.9]), 5), "side": "client", "op": "forge", "ptype": "initial",
                                  "frames_hex": r2.choice(acks[:3]), "pad_to": 1200, "early": True})
         for i in range(r2.choice([1, 2, 4])):
-            sc["script"].append({"t": round(0.3 + r2.random() * 2.0, 4), "side": r2.choice(["client", "server"]), "op": "forge", "ptype": "1rtt",
-                                 "frames_hex": r2.choice(acks[:3] + ["01", "1a0102030405060708", "1800"])})
+            op = {"t": round(0.3 + r2.random() * 2.0, 4), "side": r2.choice(["client", "server"]), "op": "forge", "ptype": "1rtt",
+                  "frames_hex": r2.choice(acks[:3] + ["01", "1a0102030405060708", "1800"])}
+            if r2.random() < 0.3:
+                op["first_or"] = r2.choice([0x08, 0x10, 0x18])  # reserved header bits set: a received packet like any other, then a close
+                op["frames_hex"] = "01"
+            sc["script"].append(op)
     if kind in ("close", "hostile") and rng.random() < 0.7:
         sc["script"].append({"t": round(0.05 + rng.random() * 2.5, 4), "side": rng.choice(["client", "server"]), "op": "close",
                              "code": rng.choice([0, 7, 0x10E]), "frame_type": rng.choice([None, 0, 6]),
